@@ -60,11 +60,64 @@ func useSleep() {
 	machine.Sleep(1)
 }
 
+// synchronisation objects living in struct fields
+type Box struct {
+	mu    *sync.Mutex
+	cond  *sync.Cond
+	wg    *sync.WaitGroup
+	val   uint64
+	ready bool
+	count uint64
+}
+
+func newBox() *Box {
+	mu := new(sync.Mutex)
+	return &Box{mu: mu, cond: sync.NewCond(mu), wg: new(sync.WaitGroup)}
+}
+
+func (b *Box) put(v uint64) {
+	b.mu.Lock()
+	b.val = b.val + v
+	b.ready = true
+	b.count = b.count + 1
+	b.cond.Broadcast()
+	b.mu.Unlock()
+}
+
+func (b *Box) waitCount(n uint64) uint64 {
+	b.mu.Lock()
+	for b.count < n {
+		b.cond.Wait()
+	}
+	r := b.val
+	b.mu.Unlock()
+	return r
+}
+
+func (b *Box) waitReady() uint64 {
+	b.mu.Lock()
+	for !b.ready {
+		b.cond.Wait()
+	}
+	r := b.val
+	b.mu.Unlock()
+	return r
+}
+
+// synchronisation objects passed as parameters
+func worker(mu *sync.Mutex, c *sync.Cond, wg *sync.WaitGroup, p *uint64, d uint64) {
+	mu.Lock()
+	*p = *p + d
+	c.Signal()
+	mu.Unlock()
+	wg.Done()
+}
+
 `)
 	cp := &ConcPackage{Package: &Package{Name: name, Features: map[string]int{}}, Info: map[string]ConcCase{}}
 	for i := 0; i < n; i++ {
 		cn := fmt.Sprintf("case_c%d", i)
-		k := rng.Intn(11)
+		k := rng.Intn(16)
 		var body string
 		var det bool
 		var tmpl string
@@ -162,6 +215,50 @@ func useSleep() {
 				fmt.Fprintf(&s, "\tgo func() {\n%s\t\tmu.Lock()\n\t\tacc = acc * %d\n\t\tdone = done + 1\n\t\tcond.Broadcast()\n\t\tmu.Unlock()\n\t}()\n", sleepSalt(rng), 2+t)
 			}
 			fmt.Fprintf(&s, "\tmu.Lock()\n\tfor done < %d {\n\t\tmachine.WaitTimeout(cond, 5)\n\t}\n\tr := acc\n\tmu.Unlock()\n\treturn r\n", nth)
+			body = s.String()
+		case 11:
+			// cond / mutex / waitgroup in struct fields; several waiters woken by Broadcast
+			tmpl, det = "struct-field-cond-broadcast", true
+			var s strings.Builder
+			s.WriteString("\tb := newBox()\n\tres := new(uint64)\n")
+			for t := 0; t < nth; t++ {
+				fmt.Fprintf(&s, "\tb.wg.Add(1)\n\tgo func() {\n\t\tv := b.waitReady()\n\t\tb.mu.Lock()\n\t\t*res = *res + v + %d\n\t\tb.mu.Unlock()\n\t\tb.wg.Done()\n\t}()\n", t)
+			}
+			fmt.Fprintf(&s, "%s\tb.put(%d)\n\tb.wg.Wait()\n\treturn *res\n", strings.ReplaceAll(sleepSalt(rng), "\t\t", "\t"), c1)
+			body = s.String()
+		case 12:
+			// var-declared synchronisation objects
+			tmpl, det = "var-declared-sync-objects", true
+			var s strings.Builder
+			s.WriteString("\tvar mu *sync.Mutex = new(sync.Mutex)\n\tvar c *sync.Cond = sync.NewCond(mu)\n\tvar wg *sync.WaitGroup = new(sync.WaitGroup)\n\tvar done uint64 = 0\n\tvar acc uint64 = 0\n")
+			for t := 0; t < nth; t++ {
+				fmt.Fprintf(&s, "\twg.Add(1)\n\tgo func() {\n%s\t\tmu.Lock()\n\t\tacc = acc + %d\n\t\tdone = done + 1\n\t\tc.Broadcast()\n\t\tmu.Unlock()\n\t\twg.Done()\n\t}()\n", sleepSalt(rng), c1+t)
+			}
+			fmt.Fprintf(&s, "\tmu.Lock()\n\tfor done < %d {\n\t\tc.Wait()\n\t}\n\tr := acc\n\tmu.Unlock()\n\twg.Wait()\n\treturn r\n", nth)
+			body = s.String()
+		case 13:
+			// synchronisation objects passed as parameters to a helper run in goroutines
+			tmpl, det = "sync-objects-as-parameters", true
+			var s strings.Builder
+			s.WriteString("\tmu := new(sync.Mutex)\n\tc := sync.NewCond(mu)\n\twg := new(sync.WaitGroup)\n\tp := new(uint64)\n")
+			for t := 0; t < nth; t++ {
+				fmt.Fprintf(&s, "\twg.Add(1)\n\tgo func() {\n%s\t\tworker(mu, c, wg, p, %d)\n\t}()\n", sleepSalt(rng), c2+t)
+			}
+			fmt.Fprintf(&s, "\tmu.Lock()\n\tfor *p < %d {\n\t\tc.Wait()\n\t}\n\tmu.Unlock()\n\twg.Wait()\n\treturn *p\n", nth*c2+(nth*(nth-1))/2)
+			body = s.String()
+		case 14:
+			// two waiters parked on one Cond, one Broadcast must release both
+			tmpl, det = "two-waiters-one-broadcast", true
+			body = fmt.Sprintf("\tb := newBox()\n\tb.wg.Add(2)\n\tr1 := new(uint64)\n\tr2 := new(uint64)\n\tgo func() {\n\t\t*r1 = b.waitReady()\n\t\tb.wg.Done()\n\t}()\n\tgo func() {\n\t\t*r2 = b.waitReady() + 1\n\t\tb.wg.Done()\n\t}()\n\tmachine.Sleep(%d)\n\tb.put(%d)\n\tb.wg.Wait()\n\treturn *r1*100 + *r2\n", 1000*(20+rng.Intn(200)), c1)
+		case 15:
+			// counting hand-off through struct methods with Signal per event
+			tmpl, det = "struct-field-count", true
+			var s strings.Builder
+			s.WriteString("\tb := newBox()\n")
+			for t := 0; t < nth; t++ {
+				fmt.Fprintf(&s, "\tgo func() {\n%s\t\tb.put(%d)\n\t}()\n", sleepSalt(rng), c1*(t+1))
+			}
+			fmt.Fprintf(&s, "\treturn b.waitCount(%d)\n", nth)
 			body = s.String()
 		case 10:
 			// nested goroutines and a parameter captured; two locks taken in a fixed order
